@@ -9,13 +9,20 @@ LEVEL = "translation_validation"
 FUNCTIONS = [("pandapower.pypower.makeYbus", "makeYbus"), ("pandapower.pf.makeYbus_numba", "makeYbus"), ("pandapower.pf.makeYbus_numba", "gen_Ybus"),
              ("pandapower.pypower.pfsoln", "pfsoln"), ("pandapower.pf.pfsoln_numba", "pfsoln"), ("pandapower.pf.pfsoln_numba", "_update_branch_flows"),
              ("pandapower.pf.pfsoln_numba", "calc_branch_flows"), ("pandapower.pf.pfsoln_numba", "pf_solution_single_slack"),
-             ("pandapower.pf.run_newton_raphson_pf", "_get_numba_functions")]
+             ("pandapower.pf.run_newton_raphson_pf", "_get_numba_functions"), ("pandapower.pf.run_bfswpf", "_make_bibc_bcbv"),
+             ("pandapower.pf.run_bfswpf", "_makeYsh_bfsw"), ("pandapower.pf.run_bfswpf", "_bfswpf"), ("pandapower.pf.run_bfswpf", "_run_bfswpf"),
+             ("pandapower.pf.run_bfswpf", "_get_bibc_bcbv"), ("pandapower.pypower.newtonpf", "_evaluate_Fx"), ("pandapower.pypower.newtonpf", "_check_for_convergence")]
 STUBS = ["numba jit removed (numba's contract: the compiled function has the semantics of its Python body)", "scipy.sparse -> dense stand-in with CSR view",
-         "_update_v (abs/angle of V) replaced by a no-op in both variants of pfsoln: it is the same shared function"]
+         "_update_v (abs/angle of V) replaced by a no-op in both variants of pfsoln: it is the same shared function",
+         "bfsw: scipy.sparse.csgraph (compiled BFS / shortest path) runs on a real csr matrix with the pattern of the stand-in (the topology is concrete); "
+         "scipy.linalg.inv -> exact adjugate inverse in the fraction field; in the phase-shift instances the inner sweep _bfswpf is replaced by its "
+         "contract 'returns some V' and pfsoln / result storing are captured; _import_numba_extensions_if_flag_is_true -> pypower makeYbus"]
 ASSUMPTIONS = ["branch data (r, x, b, g, tap, asymmetric shunt parts) and bus shunts symbolic; shifts concrete; V symbolic in rectangular form"]
-OUTSIDE = ["that gs/fdbx/fdxb/bfsw/iwamoto/lightsim2grid reach the same fixed point (iterative; compiled)", "BIBC/BCBV construction of bfsw (graph code)",
+OUTSIDE = ["that gs/fdbx/fdxb/iwamoto/lightsim2grid reach the same fixed point (iterative; compiled)", "convergence of the bfsw iteration (only: a solution is a fixed point, recognised as converged; the phase-shift rotation maps solutions to solutions)",
+           "bfsw with PV buses (inner Q loop), parallel branches between the same bus pair",
            "init variants", "the Jacobians (they only affect the path to the fixed point)"]
-BOUNDS = {"quick": "3 buses / 3 branches: parallel pair, reversed orientation; pfsoln on 3 buses / 2 branches with 2 gens", "thorough": "+ triangle, + 4 branches"}
+BOUNDS = {"quick": "3 buses / 3 branches: parallel pair, reversed orientation; pfsoln on 3 buses / 2 branches with 2 gens; bfsw on 4-5 buses: radial with the slack in the middle, one loop with the slack last, two islands; phase shifter in 3 radial layouts",
+          "thorough": "+ triangle, + 4 branches; bfsw: + 6 more layouts incl. two meshed islands, loop behind a transformer, transformer fed from its to-side"}
 
 
 def _branch_bus(ctx, ft):
@@ -102,15 +109,211 @@ def make_pfsoln():
     return fn
 
 
+# ---------------------------------------------------------------- backward/forward sweep
+BFSW_TOPOS = {
+    # name: (reference buses, [(f, t, kind)]) kind: l line, t transformer with ratio (and phase shift). A ppci keeps the bus order of the net:
+    # the reference bus of an island can sit anywhere.
+    "radial": ((0,), [(0, 1, "l"), (1, 2, "l"), (1, 3, "l")]),
+    "radial_slack_in_the_middle": ((2,), [(0, 1, "l"), (1, 2, "l"), (2, 3, "l")]),
+    "radial_trafo": ((0,), [(0, 1, "l"), (1, 2, "t"), (2, 3, "l")]),
+    "radial_trafo_hv_bus_has_higher_index": ((0,), [(0, 2, "l"), (2, 1, "t"), (1, 3, "l")]),
+    "radial_trafo_slack_last": ((3,), [(3, 2, "l"), (2, 1, "t"), (1, 0, "l")]),
+    "radial_trafo_fed_from_its_to_side": ((0,), [(0, 1, "l"), (2, 1, "t"), (2, 3, "l")]),
+    "one_loop": ((0,), [(0, 1, "l"), (1, 2, "l"), (2, 3, "l"), (3, 1, "l")]),
+    "one_loop_slack_last": ((3,), [(3, 1, "l"), (1, 2, "l"), (2, 0, "l"), (0, 1, "l")]),
+    "one_loop_behind_trafo": ((0,), [(0, 1, "t"), (1, 2, "l"), (2, 3, "l"), (3, 1, "l")]),
+    "two_islands": ((0, 3), [(0, 1, "l"), (1, 2, "l"), (3, 4, "l")]),
+    "two_islands_one_meshed": ((0, 4), [(0, 1, "l"), (1, 2, "l"), (2, 3, "l"), (3, 1, "l"), (4, 5, "t")]),
+    "two_meshed_islands": ((1, 5), [(0, 1, "l"), (1, 2, "l"), (2, 0, "l"), (3, 4, "l"), (4, 5, "l"), (5, 3, "l")]),
+}
+
+
+def _bfsw_case(ctx, topo, shift):
+    from pandapower.pypower.idx_bus import GS, BS, BUS_I, BUS_TYPE, VM, VA, bus_cols
+    from pandapower.pypower.idx_brch import F_BUS, T_BUS, BR_R, BR_X, BR_B, BR_G, TAP, SHIFT, BR_STATUS, branch_cols
+    from pandapower.pypower.idx_gen import GEN_BUS, GEN_STATUS, VG, gen_cols
+    refs, brs = BFSW_TOPOS[topo]
+    nref = len(refs)
+    nb = 1 + max(max(f, t) for f, t, _ in brs)
+    bus = ctx.obj(np.zeros((nb, bus_cols)))
+    branch = ctx.obj(np.zeros((len(brs), branch_cols)))
+    gen = ctx.obj(np.zeros((nref, gen_cols)))
+    for b in range(nb):
+        bus[b, BUS_I], bus[b, BUS_TYPE], bus[b, VM] = b, (3 if b in refs else 1), 1.0
+        if b == max(set(range(nb)) - set(refs)):
+            bus[b, GS], bus[b, BS] = ctx.var("gs", 0., 2.), ctx.var("bs", -2., 2.)
+    for g in range(nref):
+        gen[g, GEN_BUS], gen[g, GEN_STATUS], gen[g, VG] = refs[g], 1, 1.0
+    shifts = {}
+    for k, (f, t, kind) in enumerate(brs):
+        branch[k, F_BUS], branch[k, T_BUS], branch[k, BR_STATUS] = f, t, 1
+        branch[k, BR_R], branch[k, BR_X] = ctx.var(f"r{k}", 0.001, 1.), ctx.var(f"x{k}", 0.001, 1.)
+        branch[k, BR_B] = ctx.var(f"b{k}", -0.2, 1.)
+        branch[k, TAP] = 1.0
+        if kind == "t":
+            branch[k, TAP] = ctx.var(f"tap{k}", 0.8, 1.2)
+            branch[k, BR_G] = ctx.var(f"g{k}", 0., 0.5)
+            if shift:
+                shifts[k] = ctx.var(f"shift{k}", -180., 180.)
+                ctx.assume((shifts[k] >= 1.) | (shifts[k] <= -1.))
+                branch[k, SHIFT] = shifts[k]
+    return refs, bus, gen, branch
+
+
+def _sym_V(ctx, nb, refs):
+    from symx.core import SComplex
+    mk = (lambda re, im: SComplex(re, im)) if ctx.symbolic else complex
+    V = []
+    for b in range(nb):
+        if b in refs:
+            V.append(mk(ctx.var(f"vm_ref{b}", 0.9, 1.1), 0.0 * ctx.var(f"vm_ref{b}", 0.9, 1.1)))
+        else:
+            V.append(mk(ctx.var(f"vre{b}", 0.8, 1.2), ctx.var(f"vim{b}", -0.3, 0.3)))
+    return ctx.array(V)
+
+
+def _graph_stub(mod):
+    """scipy's csgraph (compiled) works on the concrete incidence structure: hand it a real csr matrix of the stand-in's pattern"""
+    import scipy.sparse as sp_
+    from scipy.sparse import csgraph as real
+
+    def conv(G):
+        if hasattr(G, "toarray") and not sp_.issparse(G):
+            A = np.array([[0.0 if (isinstance(v, (int, float, complex)) and v == 0) else 1.0 for v in row] for row in np.asarray(G.toarray(), dtype=object)])
+            return sp_.csr_matrix(A)
+        return G
+
+    class CS:
+        @staticmethod
+        def breadth_first_order(G, *a, **kw): return real.breadth_first_order(conv(G), *a, **kw)
+
+        @staticmethod
+        def breadth_first_tree(G, *a, **kw): return real.breadth_first_tree(conv(G), *a, **kw)
+
+        @staticmethod
+        def shortest_path(G, *a, **kw): return real.shortest_path(conv(G), *a, **kw)
+    return CS
+
+
+def _opts():
+    return {"enforce_q_lims": False, "tolerance_mva": 1e-8, "max_iteration": 1, "voltage_depend_loads": False, "calculate_voltage_angles": True,
+            "numba": False, "recycle": None}
+
+
+def make_bfsw_fixed_point(topo):
+    """every solution of the network equations (V symbolic, injections S = V conj(Ybus V) computed from it) is a fixed point of the real sweep:
+    _make_bibc_bcbv + _makeYsh_bfsw + one iteration of _bfswpf return V itself and report convergence"""
+    def fn(ctx):
+        bf = ctx.load("pandapower.pf.run_bfswpf")
+        mY = ctx.load("pandapower.pypower.makeYbus")
+        from pandapower.pypower.idx_brch import F_BUS, T_BUS
+        refs, bus, gen, branch = _bfsw_case(ctx, topo, shift=False)
+        nb = bus.shape[0]
+        base = 10.0
+        Ybus, Yf, Yt = mY.makeYbus(base, bus, branch)
+        V = _sym_V(ctx, nb, refs)
+        Sbus = V * np.conj(_dense(Ybus).dot(V)) if not ctx.symbolic else V * np.array([x.conjugate() for x in _dense(Ybus).dot(V)], dtype=object)
+        ref, pv, pq = np.array(refs), np.array([], dtype=np.int64), np.array([b for b in range(nb) if b not in refs])
+        cs = _graph_stub(bf)
+        extra = {}
+        if ctx.symbolic:
+            import types
+            from symx import shim
+            extra["sp"] = types.SimpleNamespace(linalg=types.SimpleNamespace(inv=shim.sym_inv))
+        G = bf.csr_matrix((np.ones(branch.shape[0]), (np.array([int(v) for v in branch[:, F_BUS]]), np.array([int(v) for v in branch[:, T_BUS]]))), shape=(nb, nb))
+        with patched(bf, csgraph=cs, **extra):
+            DLF, order = bf._make_bibc_bcbv(bus, branch, G)
+            Vout, converged, n_iter = bf._bfswpf(DLF, bus, gen, branch, base, Ybus, Sbus, V.copy(), ref, pv, pq, order, _opts(), VERBOSE=False)
+        ctx.true("a_solution_is_recognised_as_converged", bool(converged))
+        ctx.true("a_solution_needs_one_sweep", n_iter == 1)
+        for b in range(nb):
+            if ctx.symbolic:
+                ctx.eq(f"a_solution_is_a_fixed_point_of_the_sweep/bus{b}.re", Vout[b].real, V[b].real)
+                ctx.eq(f"a_solution_is_a_fixed_point_of_the_sweep/bus{b}.im", Vout[b].imag, V[b].imag)
+            else:
+                ctx.close(f"a_solution_is_a_fixed_point_of_the_sweep/bus{b}.re", Vout[b].real, V[b].real, 1e-7)
+                ctx.close(f"a_solution_is_a_fixed_point_of_the_sweep/bus{b}.im", Vout[b].imag, V[b].imag, 1e-7)
+    return fn
+
+
+def make_bfsw_shift(topo):
+    """_run_bfswpf solves the network without phase shifts and rotates the buses behind every phase shifter afterwards; with the inner sweep
+    replaced by its contract (returns some V), the rotated vector has, in the real Ybus (with shifts), the same bus power injections and
+    magnitudes as V has in the unshifted Ybus the sweep received - i.e. it solves the real network whenever V solves the unshifted one"""
+    def fn(ctx):
+        bf = ctx.load("pandapower.pf.run_bfswpf")
+        mY = ctx.load("pandapower.pypower.makeYbus")
+        refs, bus, gen, branch = _bfsw_case(ctx, topo, shift=True)
+        nb = bus.shape[0]
+        base = 10.0
+        V = _sym_V(ctx, nb, refs)
+        ppci = {"baseMVA": base, "bus": bus, "gen": gen, "branch": branch, "internal": {}}
+        ref, pv, pq = np.array(refs), np.array([], dtype=np.int64), np.array([b for b in range(nb) if b not in refs])
+        seen = {}
+
+        def get_vars(ppci_):
+            empty = np.zeros((0, 30))
+            return (base, bus, gen, branch, empty, empty, empty, empty, ref, pv, pq, None, None, V.copy(), np.arange(len(refs)))
+
+        def sweep(DLF, bus_, gen_, branch_, baseMVA, Ybus_noshift, Sbus, V0, ref_, pv_, pq_, order, options, **kw):
+            seen["Y0"] = _dense(Ybus_noshift)
+            return V.copy(), True, 1
+
+        def pfsoln(baseMVA, bus_, gen_, branch_, svc, tcsc, ssc, vsc, Ybus, Yf, Yt, V_final, ref_, ref_gens):
+            seen["Y"], seen["Vf"] = _dense(Ybus), V_final
+            return bus_, gen_, branch_
+        opts = _opts()
+        extra = {}
+        if ctx.symbolic:
+            import types
+            from symx import shim
+            extra["sp"] = types.SimpleNamespace(linalg=types.SimpleNamespace(inv=shim.sym_inv))
+        with patched(bf, csgraph=_graph_stub(bf), **extra, _get_pf_variables_from_ppci=get_vars, _bfswpf=sweep, pfsoln=pfsoln,
+                     _store_results_from_pf_in_ppci=lambda ppci_, *a: ppci_, _import_numba_extensions_if_flag_is_true=lambda numba: (False, mY.makeYbus),
+                     _get_Y_bus=lambda ppci_, options, makeYbus, baseMVA, bus_, branch_: (ppci_,) + tuple(makeYbus(baseMVA, bus_, branch_))):
+            bf._run_bfswpf(ppci, opts, VERBOSE=False)
+        ctx.true("results_written_from_the_rotated_vector", "Vf" in seen and "Y0" in seen)
+        if "Vf" not in seen:
+            return
+        Vf = seen["Vf"]
+        conj = (lambda z: z.conjugate())
+        S0 = [V[b] * conj(sum(seen["Y0"][b, j] * V[j] for j in range(nb))) for b in range(nb)]
+        S1 = [Vf[b] * conj(sum(seen["Y"][b, j] * Vf[j] for j in range(nb))) for b in range(nb)]
+        for b in range(nb):
+            if ctx.symbolic:
+                ctx.eq(f"rotated_solution_has_the_same_injection/bus{b}.p", S1[b].real, S0[b].real)
+                ctx.eq(f"rotated_solution_has_the_same_injection/bus{b}.q", S1[b].imag, S0[b].imag)
+                ctx.eq(f"rotation_keeps_the_magnitude/bus{b}", Vf[b].real * Vf[b].real + Vf[b].imag * Vf[b].imag, V[b].real * V[b].real + V[b].imag * V[b].imag)
+            else:
+                ctx.close(f"rotated_solution_has_the_same_injection/bus{b}.p", S1[b].real, S0[b].real, 1e-7)
+                ctx.close(f"rotated_solution_has_the_same_injection/bus{b}.q", S1[b].imag, S0[b].imag, 1e-7)
+                ctx.close(f"rotation_keeps_the_magnitude/bus{b}", abs(Vf[b]) ** 2, abs(V[b]) ** 2, 1e-9)
+        for b in refs:
+            ctx.close(f"slack_voltage_is_not_rotated/bus{b}", Vf[b].real, V[b].real, 1e-12)
+    return fn
+
+
 def instances(tier):
     out = []
     for lay in ("parallel_pair", "reversed") + (("triangle", "four") if tier == "thorough" else ()):
         out.append(Inst(f"makeYbus_{lay}", make_ybus(lay), nvars=40, samples=3, meta=dict(kernel="makeYbus", layout=lay)))
+    fp = ["radial_slack_in_the_middle", "one_loop_slack_last", "two_islands"] + \
+         (["radial", "one_loop", "radial_trafo", "one_loop_behind_trafo", "two_islands_one_meshed", "two_meshed_islands"] if tier == "thorough" else [])
+    sh = ["radial_trafo", "radial_trafo_hv_bus_has_higher_index", "radial_trafo_slack_last"] + \
+         (["radial_trafo_fed_from_its_to_side", "one_loop_behind_trafo", "two_islands_one_meshed"] if tier == "thorough" else [])
+    for t in fp:
+        out.append(Inst(f"bfsw_fixed_point_{t}", make_bfsw_fixed_point(t), nvars=40, samples=3, timeout_ms=60000, meta=dict(kernel="bfsw sweep", topology=t)))
+    for t in sh:
+        out.append(Inst(f"bfsw_phase_shift_{t}", make_bfsw_shift(t), nvars=40, samples=3, timeout_ms=60000, meta=dict(kernel="bfsw phase shift", topology=t)))
     out.append(Inst("pfsoln", make_pfsoln(), nvars=48, samples=3, timeout_ms=60000, meta=dict(kernel="pfsoln")))
     return out
 
 
 LEVEL_TEXT = ("Translation validation between the implementations a user switches with numba=True/False: the pypower (sparse algebra) and the "
               "numba (CSR loops, jit removed) versions of makeYbus and pfsoln are executed on the same symbolic ppc data and z3 shows every entry "
-              "of Ybus/Yf/Yt and every generator / branch result equal, for all values. (The selector of the single-slack shortcut is checked under C01.)")
-LEVEL_NOTE = ("Trusted: numba compiles the Python body faithfully; the iterative solvers themselves are outside. Bounds: 3 buses, <= 4 branches.")
+              "of Ybus/Yf/Yt and every generator / branch result equal, for all values. (The selector of the single-slack shortcut is checked under C01.) "
+              "Backward/forward sweep: for symbolic branch data and a symbolic solution V of the network equations the real BIBC/BCBV construction, shunt "
+              "decomposition and one real sweep return V itself and report convergence (radial, weakly meshed, several islands, slack anywhere); the real "
+              "phase-shift post-processing of _run_bfswpf maps every solution of the unshifted network to a vector with the same injections and magnitudes "
+              "in the real (shifted) Ybus. An internal error on any of these layouts is reported as a violation and replayed.")
+LEVEL_NOTE = ("Trusted: numba compiles the Python body faithfully; scipy's csgraph on the concrete topology; convergence of the iterative solvers is outside. Bounds: 3 buses, <= 4 branches (kernels); <= 6 buses, <= 6 branches, no PV bus (bfsw).")
